@@ -105,6 +105,25 @@ def commonLocks (as : List Access) : List Nat :=
 def guarded (as : List Access) : Bool :=
   (live as).isEmpty || !(commonLocks as).isEmpty
 
+/-- The pairwise discipline ("written under `mu` AND `wmu`, read under either"): two sites are
+compatible when neither can write or they hold a lock in common. -/
+def pairOK (a b : Access) : Bool := (!a.write && !b.write) || a.held.any (fun l => b.held.contains l)
+
+/-- Every two (non-setup) sites, at least one of which can write, share a lock. A field with a
+lock common to all its sites satisfies this too; the converse fails for state guarded by two
+mutexes of which readers take only one. -/
+def pairGuarded (as : List Access) : Bool :=
+  (live as).all (fun a => (live as).all (fun b => pairOK a b))
+
+/-- Static facts with the write flag of each site. A trace conforms when every access event
+executes SOME site of its location: it holds the site's locks, and a write event needs a site
+that can write. -/
+abbrev StaticFactsW := Loc → List (Bool × List Lock)
+
+def ConformsW (facts : StaticFactsW) (tr : List Ev) : Prop :=
+  ∀ i t x w, tr[i]? = some (.acc t x w) →
+    ∃ s ∈ facts x, (w = true → s.1 = true) ∧ ∀ l ∈ s.2, HoldsAt tr i t l
+
 def ofTuple (t : List Nat × Bool × Bool × List Nat) : Access := ⟨t.1, t.2.1, t.2.2.1, t.2.2.2⟩
 
 /-- Drop the sites of field `fid` whose function is listed as a known open finding. -/
@@ -122,6 +141,15 @@ def factsOf (fields : List (Nat × List (List Nat × Bool × Bool × List Nat)))
   fun x => match fields.lookup x with
     | some as => (live (as.map ofTuple)).map (·.held)
     | none => []
+
+def factsOfW (fields : List (Nat × List (List Nat × Bool × Bool × List Nat))) : StaticFactsW :=
+  fun x => match fields.lookup x with
+    | some as => (live (as.map ofTuple)).map (fun a => (a.write, a.held))
+    | none => []
+
+/-- Every field of the table satisfies the pairwise discipline. -/
+def allPairGuarded (fields : List (Nat × List (List Nat × Bool × Bool × List Nat))) : Bool :=
+  fields.all (fun f => pairGuarded (f.2.map ofTuple))
 
 /-! ### verdict with offenders (for the facts lane) -/
 
@@ -142,12 +170,15 @@ def offenders (as : List Access) (l : Nat) : List (List Nat) :=
 
 inductive Verdict where
   | guarded (locks : List Nat)
+  /-- no lock common to all sites, but every conflicting pair of sites shares one -/
+  | pairwise
   | unguarded (lock : Nat) (fns : List (List Nat))
 deriving DecidableEq, Repr
 
 def verdict (as : List Access) : Verdict :=
   let ls := live as
   if guarded as then .guarded (commonLocks as)
+  else if pairGuarded as then .pairwise
   else .unguarded (majorityLock ls) (offenders ls (majorityLock ls))
 
 end Req.Pool.Lockset
